@@ -259,17 +259,22 @@ def fold_rule(repo, sfi, kind, ratio):
         probs.append(f'weights sum to {w.sum()}, volume of the unit cylinder is {2 * math.pi}')
     n_line = len(set(np.round(z, 14)))
     disk_deg, tol = {'cheap': FROZEN_DEGREE['disk12'], 'medium': FROZEN_DEGREE['disk55'], 'expensive': FROZEN_DEGREE['disk256_cheb']}[kind]
-    line_deg = min(2 * n_line - 1, 9) if kind == 'cheap' else 1
+    # along the axis: Gauss-Legendre (cheap) is exact to degree 2n-1; the weighted Chebyshev rule of the other kinds is exact to degree 1
+    # and converges like 1/n^2 above (0.58/n^2 for z^2 at n = 7 .. 35; without its sqrt(1 - z^2) weights the z^2 moment is off by 1/3)
+    line_deg = min(2 * n_line - 1, 9) if kind == 'cheap' else 4
     worst = 0.0
+    worst_excess = 0.0
     for d in range(min(disk_deg, 7) + 1):
         for a_ in range(d + 1):
             b_ = d - a_
             for c_ in range(line_deg + 1):
                 got = float((w * x**a_ * y**b_ * z**c_).sum())
                 want = disk_moment(a_, b_) * (2.0 / (c_ + 1) if c_ % 2 == 0 else 0.0)
+                allowed = max(tol, 1e-12) * 4 + (math.pi / n_line ** 2 if (kind != 'cheap' and c_ >= 2) else 0.0)
                 worst = max(worst, abs(got - want))
-    if worst > max(tol, 1e-12) * 4:
-        probs.append(f'moment error {worst:.3g}')
+                worst_excess = max(worst_excess, abs(got - want) - allowed)
+    if worst_excess > 0:
+        probs.append(f'moment error {worst:.3g} (more than the rule of {n_line} axial points allows)')
     return probs, {'points': len(w), 'line_points': n_line, 'max_moment_error': worst}
 
 
